@@ -11,10 +11,10 @@ trap 'git -C /repo checkout -- .; rm -f /tmp/ov-$$.json' EXIT
 patch=$out/change$n.diff; demo=$out/demo${n}_test.go
 git apply --check $patch || { echo "PATCH DOES NOT APPLY"; exit 1; }
 echo "{\"Replace\":{\"/repo/$pkg/zz_seed_demo_test.go\":\"$demo\"}}" > /tmp/ov-$$.json
-clean_demo=$(go test -overlay /tmp/ov-$$.json -vet=off -count=1 -run 'Demo' ./$pkg/ 2>&1 | tail -1)
+clean_demo=$(go test -overlay /tmp/ov-$$.json -vet=off -count=1 -run 'Demo|Seed' ./$pkg/ 2>&1 | tail -1)
 git apply $patch
 suite=$(go test -vet=off -count=1 ./$pkg/ 2>&1 | tail -1)
-mut_demo=$(go test -overlay /tmp/ov-$$.json -vet=off -count=1 -run 'Demo' ./$pkg/ 2>&1 | tail -1)
+mut_demo=$(go test -overlay /tmp/ov-$$.json -vet=off -count=1 -run 'Demo|Seed' ./$pkg/ 2>&1 | tail -1)
 chk=$(cd /verif && ./check $prop quick 2>&1); rc=$?
 git checkout -- .
 (cd /verif && git checkout -- evidence 2>/dev/null)
